@@ -63,6 +63,7 @@ func TakeSnap(root string) Snap {
 type DiffOpts struct {
 	Inode      bool                  // compare inode numbers of files
 	FileMtime  bool                  // compare mtimes of regular files
+	DirMtime   bool                  // compare mtimes of directories (an entry was created or deleted in between)
 	IgnorePath func(rel string) bool // paths to ignore entirely
 }
 
@@ -108,6 +109,9 @@ func Diff(a, b Snap, o DiffOpts) []string {
 			}
 			if o.FileMtime && ea.Type == "f" && ea.Mtime != eb.Mtime {
 				out = append(out, fmt.Sprintf("mtime %s", k))
+			}
+			if o.DirMtime && ea.Type == "d" && ea.Mtime != eb.Mtime {
+				out = append(out, fmt.Sprintf("directory-mtime %s", k))
 			}
 		}
 	}
